@@ -67,17 +67,24 @@ def inverseRowOk (row : Row) : Bool :=
   beqStr h [0x3093] ||                                       -- ん is pinned to a single n by the repository's tests
   memStr h Chokan.Gen.KnownFindings.c17Alone ||
   (optEq (clientConv a) h &&
-    (memStr h Chokan.Gen.KnownFindings.c17Sokuon || optEq (clientConv (a.take 1 ++ a)) (0x3063 :: h)))
+    (memStr h Chokan.Gen.KnownFindings.c17Sokuon ||
+      optEq ((serverConv (0x3063 :: h)).bind clientConv) (0x3063 :: h)))     -- the server's own spelling of っ + unit
 
 /-- Each kana unit of the server's table is given a spelling that the client's own romaji rules
 turn back into exactly that unit, alone and after a sokuon — all rows except the recorded findings. -/
 theorem C17_client_inverse : table.all inverseRowOk = true := by decide +kernel
 
 /-- **The recorded findings are genuine**: without the exclusions the clause is false — the server
-spells っあ as "aa" and the client reads "aa" back as ああ (doubling a vowel does not mean っ).  Kernel-
-evaluated witness; the same unit is replayed on the implementation by the C17 check (D9). -/
-theorem C17_client_inverse_false_for_sokuon_a :
-    serverConv [0x3063, 0x3042] = some [97, 97] ∧ clientConv [97, 97] = some [0x3042, 0x3042] := by
+spells っな as "nna" and the client reads "nna" back as んあ (a doubled n is ん).  Kernel-evaluated witness;
+the same unit is replayed on the implementation by the C17 check (D9).  (The vowel rows, っあ ↦ "aa",
+were repaired by 6487e3c: a sokuon before a vowel is now spelled "xtu".) -/
+theorem C17_client_inverse_false_for_sokuon_na :
+    serverConv [0x3063, 0x306A] = some [110, 110, 97] ∧ clientConv [110, 110, 97] = some [0x3093, 0x3042] := by
+  constructor <;> decide +kernel
+
+/-- After the repair: っあ is spelled "xtua", which the client reads back as っあ. -/
+theorem C17_sokuon_before_vowel :
+    serverConv [0x3063, 0x3042] = some [120, 116, 117, 97] ∧ clientConv [120, 116, 117, 97] = some [0x3063, 0x3042] := by
   constructor <;> decide +kernel
 
 /-- Katakana behaves as its hiragana: every row's katakana is the hiragana shifted by U+60. -/
